@@ -105,6 +105,19 @@ def install(I):
     I.overrides['@' + STR + 'C2IS3_EEPKcRKS3_'] = lambda I, s, cstr, alloc: s_init_empty(I, s)
     I.overrides['@_ZStplIcSt11char_traitsIcESaIcEENSt7__cxx1112basic_stringIT_T0_T1_EEOS8_PKS5_'] = lambda I, ret, lhs, rhs: s_init_empty(I, ret)
     I.overrides['@_ZStplIcSt11char_traitsIcESaIcEENSt7__cxx1112basic_stringIT_T0_T1_EEPKS5_OS8_'] = lambda I, ret, lhs, rhs: s_init_empty(I, ret)
+    # std::vector<osmium::Location>::_M_fill_assign(n, value) (libstdc++ template code, 8-byte elements): same effect without a 65536-iteration loop
+    def vec_loc_fill_assign(I, vec, n, valp):
+        from irparse import IntTy, PtrTy
+        n = I.concretize(n, 'fill_assign count'); P8 = PtrTy(IntTy(8))
+        pat = [I.load(valp + k, IntTy(8)) for k in range(8)]
+        old = I.load(vec, P8)
+        buf = I.new_obj(max(8 * n, 1), 'heap', 'heap') if n else 0
+        if n: I.fill_pattern(buf, pat, n)
+        if old: I.models['_ZdlPv'](I, old)
+        I.store(vec, P8, buf); I.store(vec + 8, P8, buf + 8 * n); I.store(vec + 16, P8, buf + 8 * n)
+    I.overrides['@_ZNSt6vectorIN6osmium8LocationESaIS1_EE14_M_fill_assignEmRKS1_'] = vec_loc_fill_assign
+    # osmium::not_found(id): the constructor only formats the id into the message
+    I.overrides['@_ZN6osmium9not_foundC2Em'] = lambda I, *a: None
     # std::to_string(integer): only used to build exception messages -> empty string (formatting is never the subject)
     for sfx in 'ilxjmy':
         I.overrides['@_ZNSt7__cxx119to_stringE' + sfx] = lambda I, ret, v: s_init_empty(I, ret)
